@@ -34,7 +34,8 @@ import (
 //     observed verdict. Empty set <=> the observed verdict is impossible for
 //     every admissible timing <=> violation.
 //   * The instant of jailing is itself an interval (the jailing call is not
-//     atomic), so the release bound is widened by the duration of that call.
+//     atomic), so the release bound is widened by the duration of that call;
+//     a call that may outlast the jail it causes may also be admitted.
 //   * Corner excluded because the doc is silent on fixed vs sliding periods:
 //     an allow-obligation is not judged when the requests admitted since the
 //     last denial that may lie within one CheckPeriod before the request,
@@ -71,7 +72,7 @@ type c53St struct {
 
 type c53Branch struct {
 	Pre  c53St
-	Kind string // idle | released | jailed | expired | inwindow
+	Kind string // idle | released | jailed | expired | inwindow | served-within-call
 	Deny bool
 	Succ c53St
 }
@@ -130,6 +131,17 @@ func (p c53Params) branches(st c53St, a, b int64) []c53Branch {
 						Jlo: c53max(a, slo), Jhi: c53min(b, st.Shi+p.P),
 						Rlo: slo + p.P + p.S - d, Rhi: st.Shi + p.P + p.S + d}})
 			}
+		}
+	}
+	// A call is not atomic: the request is counted at one instant of [a,b] and
+	// its verdict is formed at a later one. If the call lasted so long that a
+	// jail it has just caused may already be served when it returns, "admitted,
+	// nothing pending" is admissible as well (only happens when the process
+	// was stalled for more than a stay period inside the call).
+	for _, br := range out {
+		if br.Deny && br.Kind != "jailed" && br.Succ.Mode == c53Jailed && b >= br.Succ.Rlo {
+			out = append(out, c53Branch{Pre: st, Kind: "served-within-call", Deny: false, Succ: c53St{Mode: c53Idle}})
+			break
 		}
 	}
 	return out
